@@ -15,6 +15,7 @@ import numpy as np
 from ..core import describe, import_library
 from ..gen import engines as E
 from ..gen import mutate as M
+from ..env import ENVIRONMENTS, excusable, hostile
 from ..probe import Probe, Reach
 from ..ref import structure as S
 from ..ref import terms as R
@@ -115,10 +116,27 @@ class FllMonitor:
         ctx, fl = self.ctx, self.fl
         text = args[1]
         ctx.evaluated()
+        # an importer that has been used before (texts it accepted, texts it rejected) reads a text as a new importer does
+        used = args[0]
+        try:
+            fresh, fresh_exc = type(used)(separator=used.separator).from_string(text), None
+        except Exception as ex:
+            fresh, fresh_exc = None, ex
+        ctx.hit("compare:used importer vs new importer")
+        if (exc is None) != (fresh_exc is None):
+            ctx.violation("an importer that has been used before accepts / rejects a text that a new importer rejects / accepts", {"text": text[:1500]}, repr(fresh_exc)[:200] if fresh_exc else "accepted", repr(exc)[:200] if exc else "accepted")
+            return
         if exc is not None:
             ctx.hit(f"event:import rejected:{type(exc).__name__}")
             return
         ctx.hit("event:import accepted")
+        try:
+            if fl.FllExporter().to_string(result) != fl.FllExporter().to_string(fresh):
+                diff = first_difference(fl.FllExporter().to_string(fresh), fl.FllExporter().to_string(result))
+                ctx.violation(f"an importer that has been used before imports another engine from a text than a new importer ({diff[0]})", {"text": text[:1500], "first_difference": diff[1:]}, diff[1], diff[2])
+                return
+        except Exception:
+            pass  # (an engine that cannot be exported is reported below)
         try:
             x1 = fl.FllExporter().to_string(result)
         except Exception as ex:
@@ -206,9 +224,11 @@ def run(ctx):
     )
     ctx.assumptions += ["structure is compared within half a unit of the last decimal; heights and weights within the library's atol of 1 are written as 1 (as the property says)", "identical outputs are only required (and checked) when no rule is disabled, because of the recorded finding that Rule.enabled has no FLL representation"]
     funcs = {"FllExporter.engine": fl.FllExporter.engine, "FllExporter.variable": fl.FllExporter.variable, "FllExporter.output_variable": fl.FllExporter.output_variable, "FllExporter.rule_block": fl.FllExporter.rule_block, "FllExporter.term": fl.FllExporter.term, "FllImporter.engine": fl.FllImporter.engine, "FllImporter.input_variable": fl.FllImporter.input_variable, "FllImporter.output_variable": fl.FllImporter.output_variable, "FllImporter.rule_block": fl.FllImporter.rule_block, "FllImporter.term": fl.FllImporter.term}
+    ctx.excuse = lambda mechanism, observed, note: excusable(observed)
     with Reach(funcs) as reach, Probe() as probe:
         mon = FllMonitor(ctx, fl)
         mon.install(probe)
+        shared_importer = fl.FllImporter()
         for i, rnd in ctx.cases("engines", nengines):
             for d in ([decs[i % 9], decs[(i * 5 + 3) % 9]] if not ctx.thorough else [decs[i % 9]]):
                 with fl.settings.context(decimals=d):
@@ -246,7 +266,8 @@ def run(ctx):
                             else:
                                 if way == "separator":
                                     fl.FllExporter(indent=rnd.choice(["", "    "]), separator=rnd.choice(["; ", " | "])).to_string(engine)
-                                text = fl.FllExporter().to_string(engine)  # judged by the monitor
+                                with hostile(fl, ENVIRONMENTS[(i // 3) % len(ENVIRONMENTS)] if i % 3 == 0 else None, ctx):
+                                    text = fl.FllExporter().to_string(engine)  # judged by the monitor
                             ctx.hit(f"entry:{way}")
                         except Exception:
                             continue
@@ -255,11 +276,13 @@ def run(ctx):
                             same_outputs(ctx, fl, rnd, sp, engine, text)
                             # accepted reformattings / mutants of the text feed the normalisation check (monitor on from_string)
                             for _ in range(2):
-                                for cand in (M.reformat_fll(rnd, text), M.mutate_fll(rnd, text)[1]):
+                                broken = text + rnd.choice(["\nInputVariable: leftover\n  enabled: true\n  range 0.000 1.000", "\nOutputVariable: extra\n  this line has no colon", "\nRuleBlock: more\n<<<<<<< HEAD"])
+                                for cand in (M.reformat_fll(rnd, text), M.mutate_fll(rnd, text)[1], broken, text):
                                     try:
-                                        fl.FllImporter().from_string(cand)
+                                        (shared_importer if rnd.random() < 0.7 else fl.FllImporter()).from_string(cand)
                                     except Exception:
                                         pass
+                                ctx.hit("event:one importer object used for accepted and rejected texts")
                         if variant == "grid":
                             # the same engine object exported again: after a rule weight was changed on the object, and under
                             # another decimals setting (nothing of an earlier export may be remembered)
@@ -331,6 +354,67 @@ def run(ctx):
                     continue
                 ctx.hit("workload:output variables sharing one defuzzifier text")
                 same_outputs(ctx, fl, rnd, spec, engine, text)
+        # a Discrete term of several hundred pairs (a sampled curve): every pair is written, under any NumPy print options
+        for i, rnd in ctx.cases("long tables", ctx.scale(4, 60)):
+            n = rnd.choice([7, 40, 501, 600, 1001])
+            xs = [k / 8 for k in range(n)]
+            ys = [E.G.snap(rnd.random(), 3) for _ in range(n)]
+            engine = fl.Engine("curve", input_variables=[fl.InputVariable("a", minimum=0.0, maximum=n / 8, terms=[fl.Discrete("d", fl.Discrete.to_xy(xs, ys)), fl.Triangle("t", 0.0, 1.0, 2.0)])])
+            with hostile(fl, [None, "print-options"][i % 2], ctx):
+                try:
+                    fl.FllExporter().to_string(engine)  # judged by the monitor
+                except Exception:
+                    pass
+            ctx.hit("workload:Discrete term of several hundred pairs")
+        # components of a user's own classes, registered in the factories the importer uses: subclasses that add nothing, and
+        # subclasses that declare class-level defaults of their own
+        class CoarseCentroid(fl.Centroid):
+            default_resolution = 20
+
+        class MyMinimum(fl.Minimum):
+            pass
+
+        class MyGeneral(fl.General):
+            pass
+
+        class Tent(fl.Triangle):
+            pass
+
+        class SoftSum(fl.WeightedSum):
+            pass
+
+        for i, rnd in ctx.cases("user classes", ctx.scale(20, 400)):
+            manager = fl.FactoryManager()
+            manager.defuzzifier.constructors["CoarseCentroid"] = CoarseCentroid
+            manager.defuzzifier.constructors["SoftSum"] = SoftSum
+            manager.tnorm.constructors["MyMinimum"] = MyMinimum
+            manager.activation.constructors["MyGeneral"] = MyGeneral
+            manager.term.constructors["Tent"] = Tent
+            with fl.settings.context(factory_manager=manager, decimals=3):
+                res = rnd.choice([20, 20, 100, 1000, 37])
+                mamdani = i % 3 != 2
+                engine = fl.Engine(
+                    "user",
+                    input_variables=[fl.InputVariable("a", minimum=0.0, maximum=1.0, terms=[Tent("low", 0.0, 0.25, 0.5), fl.Ramp("high", 0.25, 1.0)])],
+                    output_variables=[fl.OutputVariable("o", minimum=0.0, maximum=2.0, aggregation=fl.Maximum(), defuzzifier=CoarseCentroid(res) if mamdani else SoftSum(), terms=[Tent("x", 0.0, 1.0, 2.0), fl.Triangle("y", 0.5, 1.5, 2.0)] if mamdani else [fl.Constant("x", 0.5), fl.Constant("y", 1.5)])],
+                    rule_blocks=[fl.RuleBlock("rb", conjunction=MyMinimum(), disjunction=fl.Maximum(), implication=MyMinimum(), activation=MyGeneral(), rules=[fl.Rule.create("if a is low then o is x"), fl.Rule.create("if a is high and a is not low then o is y")])],
+                )
+                try:
+                    text = fl.FllExporter().to_string(engine)  # judged by the monitor (text, structure)
+                    back = fl.FllImporter().from_string(text)
+                    for x in (0.1, 0.3, 0.6, rnd.random()):
+                        engine.input_variables[0].value = x
+                        back.input_variables[0].value = x
+                        engine.process()
+                        back.process()
+                        ctx.evaluated()
+                        a, b = float(engine.output_variables[0].value), float(back.output_variables[0].value)
+                        if not (a == b or (a != a and b != b)):
+                            ctx.violation("an engine with registered user classes computes other outputs after the round trip", {"fll": text[:1500], "input": x}, a, b)
+                            break
+                except Exception as ex:
+                    ctx.violation(f"an engine with registered user classes does not survive the round trip ({type(ex).__name__})", {"error": repr(ex)[:300]}, "round trip", repr(ex)[:300])
+            ctx.hit("workload:components of registered user classes")
         from . import c01  # the shipped examples: export each (monitor judges), and process through the re-import
 
         import fuzzylite.examples  # noqa: F401
@@ -345,6 +429,7 @@ def run(ctx):
         probe.report(ctx)
         ctx.extra["printer_parser_pairs_with_values"] = sorted(f"{c}.{n}" for c, n in mon.pairs)
         reach.report(ctx)
+    ctx.require("workload:components of registered user classes", "workload:Discrete term of several hundred pairs", "event:one importer object used for accepted and rejected texts", "compare:used importer vs new importer", *[f"environment:{e}" for e in ENVIRONMENTS])
     ctx.require("workload:a rule was given a text that the parser rejected", "workload:output variables sharing one defuzzifier text", "workload:more decimals than significant digits")
     ctx.require("hook:FllExporter.engine", "entry:str", "entry:file", "entry:separator", "entry:Op.to_fll", "hook:FllImporter.from_string", "compare:text fixed point", "compare:structure", "compare:normalisation fixed point", "compare:identical outputs", "event:import accepted", "event:re-export after a weight change", "event:re-export under other decimals", "workload:exotic configuration")
     for d in decs:
